@@ -1,5 +1,6 @@
 """Engine M obligations, per property. Each function receives the Env (MIR of the current tree)
 and returns a list of Obligation objects whose queries are then decided by the solvers."""
+import re
 import z3
 
 import mir
@@ -1772,19 +1773,14 @@ REGISTRY.setdefault("C06", []).append(c06_transfer_split)
 IO_SLACK = 4096  # one page-sized chunk beyond the bytes that actually arrived
 
 
-def c04_io_fill_buffer(env):
-    o = Obligation("c04_io_fill_buffer", "C04")
-    o.desc = "IoReader::fill_buffer(len) with len taken from a size field on the wire (str/sym/vbin lengths, sym32 descriptors): at every point the internal buffer is asked to hold at most the bytes that really arrived plus one 4 KiB chunk, whatever len claims; on Ok the buffer holds at least len bytes and every one of them was read from the reader"
+def _io_fill_buffer(env, prop):
+    """symbolic run of IoReader::fill_buffer; the C04 and the C20 obligation read different facts off the same paths"""
     senv = env.crate("serde_amqp")
     fn = senv.fn(r"^ioread::<impl at [^>]*>::fill_buffer$")
-    o.functions = [fn.name]
-    o.bounds = [f"requested length: every 64-bit value; bytes already buffered < 2^32; bytes the reader can still deliver < {3 * IO_SLACK} (so at most 3 chunk iterations; more is shown infeasible)"]
-    o.assumes = ["Vec<u8>::len/resize/reserve/truncate/extend_from_slice and slice indexing per their documented contracts", "io::Read::read_exact(buf) either fills buf completely (reader had >= buf.len() bytes) or fails"]
     ex = senv.executor(max_visits=6)
     N = BV64("len.requested")
     L0 = BV64("buf.len0")
     A0 = BV64("reader.available")
-    f_buf = senv.fidx("IoReader", "buf")
 
     def world(st):
         return st.locals["@world"]
@@ -1854,11 +1850,14 @@ def c04_io_fill_buffer(env):
         a["start"], a["end"], a["of"] = off + start, off + end, what
         return a
 
+    def sub_of(v):
+        if not (isinstance(v, mir.Agg) and v.label == "subslice"):
+            raise mir.Unsupported("read into / copy from something that is not a tracked sub-slice")
+        return v
+
     def m_read_exact(ex_, st, callee, args, argvals, dty):
         w = world(st)
-        sub = argvals[1]
-        if not (isinstance(sub, mir.Agg) and sub.label == "subslice"):
-            raise mir.Unsupported("read_exact into something that is not a tracked sub-slice")
+        sub = sub_of(argvals[1])
         n = sub["end"] - sub["start"]
         ok = z3.UGE(w["avail"], n)
         w["reads"] = w["reads"] + ((sub["of"], sub["start"], sub["end"], ok, list(st.cond)),)
@@ -1868,14 +1867,30 @@ def c04_io_fill_buffer(env):
         r["#d"] = z3.If(ok, z3.BitVecVal(0, 64), z3.BitVecVal(1, 64))
         return r
 
+    def m_read(ex_, st, callee, args, argvals, dty):
+        # io::Read::read: Ok(k) with k <= buf.len() bytes written at the front (k may be short), or Err
+        w = world(st)
+        sub = sub_of(argvals[1])
+        n = sub["end"] - sub["start"]
+        k = z3.BitVec(f"read.k#{ex_.ctx.n}", 64)
+        ok = z3.Bool(f"read.ok#{ex_.ctx.n}")
+        ex_.ctx.n += 1
+        ex_.assumptions += [z3.ULE(k, n), z3.ULE(k, w["avail"])]
+        w["reads"] = w["reads"] + ((sub["of"], sub["start"], sub["start"] + k, ok, list(st.cond)),)
+        w["received"] = z3.If(ok, w["received"] + k, w["received"])
+        w["avail"] = z3.If(ok, w["avail"] - k, w["avail"])
+        r = mir.Agg("Result")
+        r["#d"] = z3.If(ok, z3.BitVecVal(0, 64), z3.BitVecVal(1, 64))
+        okv = mir.Agg("Ok")
+        okv[0] = k
+        r[("as", "Ok")] = okv
+        return r
+
     def m_extend(ex_, st, callee, args, argvals, dty):
         w = world(st)
-        sub = argvals[1]
-        if not (isinstance(sub, mir.Agg) and sub.label == "subslice"):
-            raise mir.Unsupported("extend_from_slice from something that is not a tracked sub-slice")
+        sub = sub_of(argvals[1])
         n = sub["end"] - sub["start"]
         grow(st, w["len"] + n)
-        w["copied"] = w["copied"] + n
         w["len"] = w["len"] + n
         return mir.Agg("unit")
 
@@ -1887,16 +1902,27 @@ def c04_io_fill_buffer(env):
         (r"^Vec::<u8>::extend_from_slice$", m_extend),
         (r"as Index(Mut)?<(std::ops::)?Range\w*(<usize>)?>>::index(_mut)?$", m_index),
         (r"as (std::io::)?Read>::read_exact$", m_read_exact),
+        (r"as (std::io::)?Read>::read$", m_read),
     ]
     w = mir.Agg("world")
-    w["len"], w["avail"], w["received"], w["copied"] = L0, A0, z3.BitVecVal(0, 64), z3.BitVecVal(0, 64)
+    w["len"], w["avail"], w["received"] = L0, A0, z3.BitVecVal(0, 64)
     w["events"], w["reads"] = (), ()
     rd = mir.Agg("ioreader")
     paths = ex.run(fn, {"_1": mir.Ref(("@rd",), True), "@rd": rd, "_2": N, "@world": w})
     hyp = ex.assumptions + [z3.ULT(L0, 1 << 32), z3.ULT(A0, 3 * IO_SLACK)]
+    bounds = [f"requested length: every 64-bit value; bytes already buffered < 2^32; bytes the reader can still deliver < {3 * IO_SLACK} (so at most 3 chunk iterations; more is shown infeasible)"]
+    assumes = ["Vec<u8>::len/resize/reserve/truncate/extend_from_slice and slice indexing per their documented contracts", "io::Read::read_exact(buf) either fills buf completely (reader had >= buf.len() bytes) or fails; io::Read::read(buf) returns Ok(k) with any k <= buf.len() (short reads allowed) or fails"]
+    return senv, fn, paths, hyp, (N, L0, A0), bounds, assumes
+
+
+def c04_io_fill_buffer(env):
+    o = Obligation("c04_io_fill_buffer", "C04")
+    o.desc = "IoReader::fill_buffer(len) with len taken from a size field on the wire (str/sym/vbin lengths, sym32 descriptors): at every point the internal buffer is asked to hold at most the bytes that really arrived plus one 4 KiB chunk, whatever len claims; no arithmetic overflow or out-of-range slice; the loop ends once the reader runs dry"
+    senv, fn, paths, hyp, (N, L0, A0), o.bounds, o.assumes = _io_fill_buffer(env, "C04")
+    o.functions = [fn.name]
 
     def replay(m):
-        n, l0, a0 = model_value(m, N), model_value(m, L0), model_value(m, A0)
+        n, a0 = model_value(m, N), model_value(m, A0)
         claimed = max(min(n, 0x7FFFFFF0), 1)
         cmds = [f"iofill {kind} {claimed} {min(a0, 64)}" for kind in ("performative", "stronly", "bytesonly")]
         # directed probes as well: a descriptor / string claiming 1 GiB with 2 bytes present
@@ -1907,30 +1933,23 @@ def c04_io_fill_buffer(env):
 
         return cmds, bad
 
-    n_ok = 0
+    n_ret = 0
     for i, p in enumerate(paths):
         if p.end.startswith("loop-bound"):
-            o.prove(f"path{i}:three-iterations-suffice-for-the-bounded-reader", hyp + p.cond, z3.BoolVal(False))
+            o.prove(f"path{i}:three-iterations-suffice-for-the-bounded-reader", hyp + p.cond, z3.BoolVal(False), replay=replay)
             continue
         if p.end != "return" or not isinstance(p.ret, mir.Agg):
             continue
+        n_ret += 1
         wd = p.locals["@world"]
         for j, (target, received, c) in enumerate(wd["events"]):
             o.prove(f"path{i}:growth{j}-within-arrived-bytes+4KiB", hyp + c, z3.ULE(target, L0 + received + IO_SLACK), replay=replay)
         for j, (of, s_, e_, ok, c) in enumerate(wd["reads"]):
             if of == "chunk":
                 o.prove(f"path{i}:read{j}-chunk-at-most-4KiB", hyp + c, z3.ULE(e_ - s_, IO_SLACK), replay=replay)
-        okd = p.ret.get("#d")
-        if okd is None:
-            raise mir.Unsupported("fill_buffer result without discriminant")
-        H = hyp + p.cond + [okd == 0]
-        n_ok += 1
-        o.prove(f"path{i}:ok-implies-len-bytes-buffered", H, z3.UGE(wd["len"], N), replay=replay)
-        o.prove(f"path{i}:ok-implies-no-more-than-asked", H, wd["len"] == z3.If(z3.UGE(L0, N), L0, N), replay=replay)
-        o.prove(f"path{i}:ok-implies-every-new-byte-came-from-the-reader", H, wd["len"] - L0 == wd["received"], replay=replay)
         for (d, okc, c) in p.obligations:
             o.prove(f"path{i}:{d}", hyp + c, okc, replay=replay)
-    o.cover("a call that needs two chunks succeeds", [z3.BoolVal(n_ok > 1)] + hyp + [z3.UGT(N, L0 + IO_SLACK), z3.UGE(A0, N - L0)])
+    o.cover("a call that needs two chunks returns", [z3.BoolVal(n_ret > 1)] + hyp + [z3.UGT(N, L0 + IO_SLACK), z3.UGE(A0, N - L0)])
     # no other function of IoReader grows the buffer by a wire-derived amount
     growers = []
     for name, f in senv.fns.items():
@@ -1944,4 +1963,37 @@ def c04_io_fill_buffer(env):
     return [o]
 
 
+def c20_io_fill_buffer(env):
+    o = Obligation("c20_io_fill_buffer", "C20")
+    o.desc = "IoReader::fill_buffer(len) (behind peek_bytes / borrowed str and bytes / uuid / decimals / descriptors): on Ok the buffer holds exactly max(len, what it held) bytes and every new byte was delivered by the underlying reader -- also when the reader returns short reads -- so the io reader sees the same bytes as the slice reader"
+    senv, fn, paths, hyp, (N, L0, A0), o.bounds, o.assumes = _io_fill_buffer(env, "C20")
+    o.functions = [fn.name]
+
+    def replay(m):
+        cmds = [f"iochunk {k}" for k in (1, 2, 3, 5, 1000)]
+        return cmds, (lambda outs: any(js.get("panic") or not js["agree"] for js in outs))
+
+    n_ok = 0
+    for i, p in enumerate(paths):
+        if p.end != "return" or not isinstance(p.ret, mir.Agg):
+            continue
+        wd = p.locals["@world"]
+        okd = p.ret.get("#d")
+        if okd is None:
+            raise mir.Unsupported("fill_buffer result without discriminant")
+        H = hyp + p.cond + [okd == 0]
+        n_ok += 1
+        o.prove(f"path{i}:ok-implies-len-bytes-buffered", H, z3.UGE(wd["len"], N), replay=replay)
+        o.prove(f"path{i}:ok-implies-no-more-than-asked", H, wd["len"] == z3.If(z3.UGE(L0, N), L0, N), replay=replay)
+        o.prove(f"path{i}:ok-implies-every-new-byte-came-from-the-reader", H, wd["len"] - L0 == wd["received"], replay=replay)
+        pos = L0
+        for j, (of, s_, e_, ok, c) in enumerate(wd["reads"]):
+            if of == "buf":
+                o.prove(f"path{i}:read{j}-lands-right-after-the-bytes-already-buffered", hyp + c, s_ == pos, replay=replay)
+                pos = z3.If(ok, e_, pos)
+    o.cover("a call that needs two chunks succeeds", [z3.BoolVal(n_ok > 1)] + hyp + [z3.UGT(N, L0 + IO_SLACK), z3.UGE(A0, N - L0)])
+    return [o]
+
+
+REGISTRY.setdefault("C20", []).append(c20_io_fill_buffer)
 REGISTRY.setdefault("C04", []).append(c04_io_fill_buffer)
